@@ -523,8 +523,61 @@ def run_ops(gen: int, ops, stats: Stats | None):
         x.dispose()
 
 
+def _twin_ops(gen):
+    """Short op lists for two sockets that live in one process (see run_twin)."""
+    burst = st.lists(_send_item(gen), min_size=1, max_size=4).map(lambda b: [["send", [[k, p, ("idem" if isinstance(pol, str) else [pol[0], 30.0]), h]
+                                                                                       for k, p, pol, h in b]]])
+    outage = st.tuples(st.sampled_from(["eof", "reset"]), st.integers(1, 3), st.lists(_send_item(gen), min_size=1, max_size=4)).map(
+        lambda t: [["script", [["refuse", 0.0]] * t[1]], ["down", t[0]],
+                   ["send", [[k, p, ("idem" if isinstance(pol, str) else [pol[0], 30.0]), h] for k, p, pol, h in t[2]]],
+                   ["advance", 1.0], ["advance", 2.0 * t[1]]])
+    pause = st.sampled_from([[["advance", 0.0]], [["advance", 0.5]], [["advance", 2.0]]])
+    return st.lists(st.one_of(burst, burst, outage, pause), min_size=3, max_size=12).map(lambda bl: [op for b in bl for op in b])
+
+
+def run_twin(gen: int, ops_a, ops_b, stats: Stats | None):
+    """Two sockets of the same generation in one process, each with its own console, driven alternately: what is
+    accepted by one socket reaches that socket's console only (nothing may be shared through class attributes or module
+    globals - registries and header factories are singletons by design, queues and connections are not)."""
+    from pav import fakenet
+    xs = [Interp(gen), Interp(gen)]
+    try:
+        for i in range(max(len(ops_a), len(ops_b))):
+            for x, ops in zip(xs, (ops_a, ops_b)):
+                if i >= len(ops):
+                    continue
+                op = ops[i]
+                fakenet._CURRENT[0] = x.rig.net
+                if op[0] == "send" and len(x.pending()) + len(op[1]) > 10:
+                    continue
+                if op[0] == "advance" and op[1] >= x.min_remaining():
+                    op = ["advance", x.min_remaining() / 2]
+                try:
+                    x.do(op)
+                except Violation as v:
+                    v.case = {"twin": [ops_a, ops_b], "gen": gen}
+                    v.what = f"two sockets in one process (socket {xs.index(x)}): " + v.what
+                    raise
+        for x in xs:
+            fakenet._CURRENT[0] = x.rig.net
+            try:
+                x.finish()
+            except Violation as v:
+                v.case = {"twin": [ops_a, ops_b], "gen": gen}
+                v.what = f"two sockets in one process (socket {xs.index(x)}): " + v.what
+                raise
+        if stats is not None:
+            stats.case([ops_a, ops_b], True, classes=["twin-sockets", f"gen{gen}"],
+                       sample={"gen": gen, "ops": [len(ops_a), len(ops_b)], "accepted": [len(x.accepted) for x in xs]})
+    finally:
+        for x in xs:
+            x.dispose()
+
+
 def shards(tier: str):
     out = []
+    for gen in (4, 5):
+        out.append({"part": "twin", "gen": gen, "n": 60 if tier == "quick" else 400})
     if tier == "quick":
         for gen in (4, 5):
             for k in range(6):
@@ -543,13 +596,16 @@ def shards(tier: str):
 def floors(tier: str):
     return {"multi-pending-outage": 30, "same-instant-batch": 60, "wrap-256": 2, "expired-among-pending": 30,
             "sent-from-connection-subscriber:up": 40, "sent-from-connection-subscriber:down": 40,
-            "flush-suspended-by-backpressure": 40, "unencodable-among-accepted": 100}
+            "flush-suspended-by-backpressure": 40, "unencodable-among-accepted": 100, "twin-sockets": 80}
 
 
 def run_shard(spec, seed: int, tier: str):
     stats = Stats(ID)
     gen = spec["gen"]
-    if spec["part"] == "machine":
+    if spec["part"] == "twin":
+        strat = st.tuples(_twin_ops(gen), _twin_ops(gen))
+        drive(stats, lambda s: given_test(strat, lambda c: stats.guard(run_twin, gen, c[0], c[1], stats), s, spec["n"]), seed)
+    elif spec["part"] == "machine":
         drive(stats, lambda s: machine_test(make_machine(gen, stats), s, spec["n"], spec["steps"]), seed)
     else:
         drive(stats, lambda s: given_test(_wrap_ops(gen), lambda ops: stats.guard(run_ops, gen, ops, stats), s, spec["n"]), seed)
@@ -557,6 +613,12 @@ def run_shard(spec, seed: int, tier: str):
 
 
 def replay(case):
+    if "twin" in case:
+        try:
+            run_twin(case["gen"], case["twin"][0], case["twin"][1], None)
+        except Violation as v:
+            return v.as_dict()
+        return None
     ops = case["ops"]
     gen = ops[0][1]
     x = Interp(gen)
